@@ -1,6 +1,6 @@
 (* C09 on the generic lifecycle core: static space, any tuners, any finishing order, retries; no abort, no reload *)
 From stdpp Require Import gmap list.
-From KT Require Import Lifecycle LInv G3 GR G4 GP GQ.
+From KT Require Import Lifecycle LInv LSync G3 GR G4 GP GQ.
 Set Default Proof Using "All".
 
 Section top.
@@ -152,6 +152,47 @@ Proof.
     - pose proof (ginv_update s id f Ho HG) as H. by rewrite Es in H.
     - pose proof (ginv_end s id es f Ho HG) as H. rewrite Es in H. by apply H.
     - done. }
+  constructor; [done|]. by apply IH.
+Qed.
+
+(* ---- save+reload: the linked list and the pending queue are persisted (get_state/set_state), payloads come back from the
+   trial files, running trials are queued again *)
+Theorem ginv_reload s : Inv s → DSync s → GInv s → GInv (fst (do_reload (λ g : gstate, g) s)).
+Proof.
+  intros HI HD HG. unfold GInv in *. cbn [do_reload fst trials algo].
+  assert (Hlen : length (from_disk (trials s) (disk s)) = length (trials s)) by (apply from_disk_length, (I_disk_len _ HI)).
+  assert (Hval : ∀ j, val (from_disk (trials s) (disk s)) j = val (trials s) j).
+  { intros j. pose proof (reload_data (λ g : gstate, g) s j HI HD) as H. cbn [do_reload fst trials] in H. unfold val.
+    destruct (nth_error (from_disk (trials s) (disk s)) j), (nth_error (trials s) j); cbn in *; congruence. }
+  rewrite Hlen. eapply (GI_ext sp Hwo); [exact HG|intros j _; by rewrite Hval|].
+  intros x Hx. unfold waiting_ids in *. cbn [ongoing retryq map app]. rewrite elem_of_app in Hx. rewrite elem_of_app. tauto.
+Qed.
+
+Definition static_op_r (o : @op V) : Prop :=
+  match o with Create _ => True | Update _ f => ∀ v, f v = v | End _ _ f => ∀ v, f v = v | Reload => True end.
+
+(* the invariant in every state of every run, reloads included *)
+Lemma run_ginv_reload ops : abort_early c = false → ∀ s, Inv s → DSync s → GInv s → Forall static_op_r ops →
+  no_abort (run (∅ : V) score_fn (gpopulate sp) gend habort (λ g, g) (λ v, v) c s ops) →
+  Forall (λ rs, GInv (snd rs)) (run (∅ : V) score_fn (gpopulate sp) gend habort (λ g, g) (λ v, v) c s ops).
+Proof.
+  intros Hab. induction ops as [|o r IH]; intros s HI HD HG Hst Hna; cbn; [constructor|].
+  apply Forall_cons in Hst as [Ho Hst]. cbn in Hna.
+  destruct (stepg s o) as [s' rs] eqn:Es. destruct Hna as [Hr Hna].
+  assert (HI' : Inv s').
+  { destruct o as [tu|id f|id es f|]; cbn in Es.
+    - pose proof (inv_create (∅ : V) (gpopulate sp) (λ v, v) c s tu HI) as H. by rewrite Es in H.
+    - pose proof (inv_update s id f HI) as H. by rewrite Es in H.
+    - pose proof (inv_end score_fn gend habort c s id es f Hab HI) as H. by rewrite Es in H.
+    - pose proof (inv_reload (λ g : gstate, g) s HI) as H. by rewrite Es in H. }
+  assert (HD' : DSync s').
+  { pose proof (dsync_step (∅ : V) score_fn (gpopulate sp) gend habort (λ g, g) (λ v, v) (λ v, eq_refl) c s o Hab HI HD) as H. by rewrite Es in H. }
+  assert (HG' : GInv s').
+  { destruct o as [tu|id f|id es f|]; cbn in Es.
+    - pose proof (ginv_create s tu HG) as H. by rewrite Es in H.
+    - pose proof (ginv_update s id f Ho HG) as H. by rewrite Es in H.
+    - pose proof (ginv_end s id es f Ho HG) as H. rewrite Es in H. by apply H.
+    - pose proof (ginv_reload s HI HD HG) as H. by rewrite Es in H. }
   constructor; [done|]. by apply IH.
 Qed.
 
